@@ -394,13 +394,32 @@ func r11c(c *core.Ctx) {
 		return
 	}
 	arg := core.Expr(addCall.Common().Args[1])
-	c.Check(strings.HasPrefix(arg, "bytes.TrimSpace("), "loader-trims", addCall.Pos(), ld, "lines are TrimSpace'd before Add", arg)
+	// the line given to Add is bytes.TrimSpace(…) — directly, or as the only result of a helper of the package that
+	// also cuts the line at '#'
+	trims := strings.HasPrefix(arg, "bytes.TrimSpace(")
 	hash := false
 	for _, call := range core.CallsNamed(ld, "bytes.IndexByte") {
 		if k, ok := core.ConstInt(call.Common().Args[1]); ok && k == '#' && core.InstrDominates(call, addCall) {
 			hash = true
 		}
 	}
+	if hc, isCall := addCall.Common().Args[1].(*ssa.Call); isCall && !trims {
+		if h := core.StaticCallee(hc); h != nil && h.Pkg == ld.Pkg && h.Blocks != nil {
+			allTrim := true
+			for _, ret := range returnsOf(h) {
+				if !strings.HasPrefix(core.Expr(core.ReturnResults(ret)[0]), "bytes.TrimSpace(") {
+					allTrim = false
+				}
+			}
+			trims = allTrim && len(returnsOf(h)) > 0
+			for _, call := range core.CallsNamed(h, "bytes.IndexByte") {
+				if k, ok := core.ConstInt(call.Common().Args[1]); ok && k == '#' {
+					hash = true
+				}
+			}
+		}
+	}
+	c.Check(trims, "loader-trims", addCall.Pos(), ld, "lines are TrimSpace'd before Add", arg)
 	c.Check(hash, "loader-strips-comments", addCall.Pos(), ld, "everything from '#' on is dropped before Add", "")
 	c.Check(hasCond(addCall.Block(), ") == 0)", false), "loader-skips-blank", addCall.Pos(), ld, "blank lines are skipped", condList(addCall.Block()))
 	propagates := false
